@@ -453,9 +453,14 @@ func checkProperty(p *Program, prop, tier string, timeoutS, workers int, start t
 		},
 		"assumptions": sortedKeys(trusted),
 	}
-	os.MkdirAll(filepath.Join(p.verif, "evidence"), 0o755)
+	// evidence describes /repo itself; a run against a scratch copy (selftest, seeded changes) must not overwrite it
+	evDir := filepath.Join(p.verif, "evidence")
+	if filepath.Clean(p.repo) != "/repo" {
+		evDir = filepath.Join(p.verif, ".cache", "evidence-scratch")
+	}
+	os.MkdirAll(evDir, 0o755)
 	b, _ := json.MarshalIndent(ev, "", " ")
-	os.WriteFile(filepath.Join(p.verif, "evidence", prop+".json"), b, 0o644)
+	os.WriteFile(filepath.Join(evDir, prop+".json"), b, 0o644)
 	fmt.Printf("govc: property %s tier %s: %d obligations, %d discharged, %d known findings, %d violations, %d cover checks, %.1fs\n", prop, tier, nObl, nDis, len(known), len(violations), nCover, wall)
 	if len(violations) > 0 {
 		return 1
